@@ -6,6 +6,7 @@ package main
 
 import (
 	"fmt"
+	"go/types"
 	"sort"
 	"strings"
 
@@ -129,6 +130,14 @@ func ruleMergeSourcesPrivate(rule string) func(p *Prog, r *Result) {
 				key := fmt.Sprintf("%s -> %s / source argument", p.FuncName(fn), p.FuncName(e.Callee))
 				ds := p.DeriveWithSources(args[idx], sources)
 				if ok, why := privateCopy(ds); ok {
+					// a private copy per call: when the call is repeated (a loop, a callback invoked per element) the copy
+					// has to be made in the same repetition, or all targets of one layer share it
+					if perElement {
+						if where := madeOutsideRepetition(args[idx], e.Site); where != "" {
+							r.Fail(rule, key, p.InstrPos(e.Site), "the source is copied once ("+where+") and handed to merge for every matching element: merge keeps and modifies its source, so the merged entries share one value and a later change of one of them changes the others")
+							continue
+						}
+					}
 					r.OK(rule, key, p.InstrPos(e.Site), "source is a private deep copy ("+describeDerivs(ds)+")")
 				} else {
 					what := "called from outside the merge family"
@@ -400,5 +409,107 @@ func ruleQueryMethods(rule string) func(p *Prog, r *Result) {
 				"a query method writes into its receiver ("+why+"): the answer is cached in the object, and stays stale when the fields it was computed from change behind its back (merge targets are appended to Parents directly; documents are shared between layers)")
 		}
 		r.Floor(rule, "query methods", n, 10)
+	}
+}
+
+// madeOutsideRepetition: the value handed to the call at site is produced (by a call, or by an assignment to the
+// variable it is read from) outside the innermost repetition the site sits in — outside the loop, or outside the
+// closure that is invoked once per element. Returns a description of where, or "".
+func madeOutsideRepetition(v ssa.Value, site ssa.CallInstruction) string {
+	fn := site.Parent()
+	var body map[*ssa.BasicBlock]bool
+	for _, h := range loopHeaders(fn) {
+		if b := loopBody(h); b[site.Block()] && (body == nil || len(b) < len(body)) {
+			body = b
+		}
+	}
+	if body == nil && fn.Parent() == nil {
+		return ""
+	}
+	inside := func(in ssa.Instruction) bool {
+		if in.Parent() != fn {
+			return false
+		}
+		return body == nil || body[in.Block()]
+	}
+	seen := map[ssa.Value]bool{}
+	var walk func(v ssa.Value) string
+	walk = func(v ssa.Value) string {
+		if v == nil || seen[v] {
+			return ""
+		}
+		seen[v] = true
+		switch x := v.(type) {
+		case *ssa.Extract:
+			return walk(x.Tuple)
+		case *ssa.Call:
+			if !inside(x) {
+				return "by a call before the loop or outside the callback"
+			}
+		case *ssa.MakeInterface:
+			return walk(x.X)
+		case *ssa.ChangeType:
+			return walk(x.X)
+		case *ssa.Phi:
+			for _, e := range x.Edges {
+				if w := walk(e); w != "" {
+					return w
+				}
+			}
+		case *ssa.UnOp:
+			switch a := x.X.(type) {
+			case *ssa.Alloc:
+				for _, ref := range *a.Referrers() {
+					if st, ok := ref.(*ssa.Store); ok && st.Addr == ssa.Value(a) {
+						if !inside(st) {
+							return "assigned to " + a.Comment + " outside the repetition"
+						}
+						if w := walk(st.Val); w != "" {
+							return w
+						}
+					}
+				}
+			case *ssa.FreeVar:
+				return "captured variable " + a.Name() + ", assigned outside the callback"
+			}
+		}
+		return ""
+	}
+	return walk(v)
+}
+
+// ruleListsRebuilt(rule): the library never edits a list it was handed. Every list-producing step (filterList,
+// the merge and evaluation of lists, the pop* helpers) builds a new slice; a slice element written in place — by
+// index, or by appending to a truncated view such as l[:0] of a parameter — changes the caller's tree: the live
+// document a reference points into, the parent layer's list, the body shared by the copies of a $repeat.
+func ruleListsRebuilt(rule string) func(p *Prog, r *Result) {
+	return func(p *Prog, r *Result) {
+		o := p.Own()
+		nWrites, nFns := 0, 0
+		for _, fn := range p.Funcs {
+			pk := fnPkg(fn)
+			if pk == nil || shortPkg(pk.Pkg.Path()) != "bkl" || fn.Parent() != nil {
+				continue
+			}
+			nFns++
+			for _, w := range o.Writes[fn] {
+				nWrites++
+				if w.Kind != "elemset" {
+					continue
+				}
+				roots, _ := o.rootsOf(w.Target)
+				for par := range roots {
+					if _, isSlice := par.Type().Underlying().(*types.Slice); !isSlice {
+						if _, isIface := par.Type().Underlying().(*types.Interface); !isIface {
+							continue
+						}
+					}
+					r.Fail(rule, fmt.Sprintf("%s / writes an element of the list reachable from parameter %s", p.FuncName(fn), p.ParamName(par)), p.InstrPos(w.Instr),
+						"a list handed in is edited in place (an element store, or an append onto a truncated view of it, reuses its backing array): the caller's tree changes — a referenced subtree, the parent layer's list or the shared body of a $repeat is no longer what was written")
+				}
+			}
+		}
+		r.OK(rule, "lists are rebuilt, never edited in place", "", fmt.Sprintf("%d writes in %d library functions examined; no element store targets a slice reachable from a parameter", nWrites, nFns))
+		r.Floor(rule, "container writes examined in package bkl", nWrites, 20)
 	}
 }
